@@ -1,6 +1,7 @@
 \* end-to-end scenario environments: capacity {2, 4, 1000} x max_files {2, 32} x max size {8, 1000} x reuse x
 \* (no fault | {err, short, burst, nocreate} x call index {1,2,3,4,5,6,8,10,13}) x stall at write/sync call {0 (none), 1, 3, 6}
 \* x writer failures {none, every 2nd event after partial output, every 3rd after partial output, every 3rd before any output}
+\* x template form {full, noext, nodir, invalid (inert emitter; without fault / stall)} x separator {"\n", "\r\n"}
 SPECIFICATION Spec
 CONSTANTS
     Caps = {2, 4, 1000}
@@ -11,5 +12,7 @@ CONSTANTS
     FaultAt = {1, 2, 3, 4, 5, 6, 8, 10, 13}
     Stalls = {0, 1, 3, 6}
     WriterFails <- QuickWriterFails
-INVARIANT Printed
+    Templates = {"full", "noext", "nodir", "invalid"}
+    Seps = {"nl", "crlf"}
+INVARIANTS Printed Framed
 CHECK_DEADLOCK FALSE
